@@ -3,21 +3,45 @@
    followed by one step on the returned mutex; sync.Mutex / sync.RWMutex are the
    trusted abstract machine [umutex]).
 
-   PARTIAL. Proved here: everything the property says about the step on the
-   key's mutex (Try* never block and report exactly whether the mutex was free;
-   Lock is enabled exactly when the mutex is free; a mutex step reads and writes
-   only the mutex of its own key, so holding or waiting for another key's mutex
-   can neither delay nor fail it).
-   NOT yet proved: [C09_one_mutex_per_key] — in runs without ClearKey all
-   LoadOrStore calls for one key return the same mutex (needs the concurrent
-   invariants of sync2.Map, under way in SyncMap/Inv.v); hence
-   [C09_mutual_exclusion] per KEY is currently carried by the controlled-schedule
-   trace validation plus the per-key occupancy oracle of harness/c09 only.
-     C09_one_mutex_per_key (to prove):
-       forall n progs sched (all calls CLoadOrStore 0 k v p), in
-       run_schedule (init_config 1 progs) sched, any two completed calls for the
-       same key k have f_los.1 equal. *)
-From Typ Require Import SyncMap.Model SyncMap.KeyedMutex.
+   Proved here, for ALL programs and ALL schedules (any number of goroutines,
+   keys and calls; the granularity is the atomic steps of the underlying map):
+   (a) everything the property says about the step on the key's mutex (Try*
+       never block and report exactly whether the mutex was free; Lock is
+       enabled exactly when the mutex is free; a mutex step reads and writes only
+       the mutex of its own key, so holding or waiting for another key's mutex
+       can neither delay nor fail it);
+   (b) [C09_one_mutex_per_key]: in runs without ClearKey (programs of
+       LoadOrStore-based keyed-mutex calls and Loads on one Map) every
+       LoadOrStore of a key returns the same mutex, under every interleaving,
+       including the first simultaneous use of a never-seen key - from the
+       insert-only invariants of SyncMap/InsertOnly.v (no entry is ever nil or
+       expunged, entries never change, the key -> entry association is
+       functional and survives promotion and dirtyLocked's copy), which build on
+       the structural invariant of SyncMap/Inv.v;
+   (c) [C09_mutual_exclusion] per KEY: with "t holds k" defined from the history
+       (completed LockKey / successful TryLockKey not yet followed by a completed
+       UnlockKey of t on k; likewise shared), at most one thread holds k
+       exclusively and nobody holds it shared meanwhile, and the key's mutex is
+       then locked - for runs in which a thread only unlocks what it holds
+       ([disc_from]: whenever the schedule picks a thread that stands at the
+       Unlock/RUnlock step of a call on key k, that thread holds k; the harness
+       generates only such programs, TryLock results included);
+   (d) the same at the level of KEYS: TryLockKey/TryRLockKey fail while the key
+       is held incompatibly and succeed (and then hold it) when it is free;
+       LockKey's mutex step is disabled while the key is held and enabled as
+       soon as it is free, whatever other keys are held or awaited; disciplined
+       runs never panic. The "succeeds when free" halves assume fresh mutexes
+       ([fresh_values]: calls on different keys carry different values, as in
+       the code, where every call allocates a new mutex).
+   ClearKey (Delete on the map): Props/C09ck.v proves per-key mutual exclusion for
+   runs WITH ClearKey, under the property's own proviso (ClearKey(k) only while
+   nobody holds or awaits k). The theorems of THIS file are about programs
+   without ClearKey: after a ClearKey the key gets a new mutex, so (b) cannot
+   hold across it.
+   Not stated as a theorem: cross-key PROGRESS in the sense of a bound on the
+   length of the map's internal critical section; (a) and (d) give the
+   enabledness part (holding or awaiting other keys never disables a step). *)
+From Typ Require Import SyncMap.Model SyncMap.Inv SyncMap.KeyedMutex SyncMap.InsertOnly.
 
 Theorem C09_try_never_blocks : forall um f, is_try (f_pc f) = true -> step_post um f <> None.
 Proof. exact try_never_blocks. Qed.
@@ -69,4 +93,180 @@ Example C09_example :
   map t_results (c_threads c) = [[RUnit]; []] /\
   map thread_label (c_threads c) = [None; Some KM_Lock] /\
   step c 1 0 = None.
+Proof. vm_compute. repeat split. Qed.
+
+(* ================= one mutex per key, per-key mutual exclusion ================= *)
+(* Programs: one Map (instance 0), calls CLoad 0 k and CLoadOrStore 0 k v p with any post action p,
+   i.e. all eight keyed-mutex methods except ClearKey ([io_progs]). *)
+
+(* no entry is ever nil or expunged ... *)
+Theorem C09_entries_are_values : forall progs sched i e p, io_progs progs ->
+  c_insts (run_schedule (init_config 1 progs) sched) = [i] ->
+  ents (i_st i) !! e = Some p -> e < next_e (i_st i) /\ exists v, p = PVal v.
+Proof. exact io_entries_are_values. Qed.
+Print Assumptions C09_entries_are_values.
+
+(* ... and an entry's value never changes once created *)
+Theorem C09_entries_never_change : forall progs s1 s2 i1 i2 e p, io_progs progs ->
+  c_insts (run_schedule (init_config 1 progs) s1) = [i1] ->
+  c_insts (run_schedule (init_config 1 progs) (s1 ++ s2)) = [i2] ->
+  ents (i_st i1) !! e = Some p -> ents (i_st i2) !! e = Some p.
+Proof. exact io_entries_never_change. Qed.
+Print Assumptions C09_entries_never_change.
+
+(* the key -> entry association (through read.m or through dirty) is functional ... *)
+Theorem C09_assoc_functional : forall progs sched i k e1 e2, io_progs progs ->
+  c_insts (run_schedule (init_config 1 progs) sched) = [i] ->
+  reach_any (i_st i) k e1 -> reach_any (i_st i) k e2 -> e1 = e2.
+Proof. exact io_assoc_functional. Qed.
+Print Assumptions C09_assoc_functional.
+
+(* ... and stable: once e is the entry of k it stays the entry of k forever *)
+Theorem C09_assoc_stable : forall progs s1 s2 i1 i2 k e, io_progs progs ->
+  c_insts (run_schedule (init_config 1 progs) s1) = [i1] ->
+  c_insts (run_schedule (init_config 1 progs) (s1 ++ s2)) = [i2] ->
+  reach_any (i_st i1) k e -> reach_any (i_st i2) k e.
+Proof. exact io_assoc_stable. Qed.
+Print Assumptions C09_assoc_stable.
+
+(* the entry a frame holds locally for its key (wherever it will dereference it) is that entry *)
+Theorem C09_frame_entry : forall progs sched i t f e, io_progs progs ->
+  let c := run_schedule (init_config 1 progs) sched in
+  c_insts c = [i] -> top_frame c t = Some f -> e_is_key (f_pc f) = true -> f_e f = Some e ->
+  reach_any (i_st i) (key_of (f_call f)) e.
+Proof. exact io_frame_entry. Qed.
+Print Assumptions C09_frame_entry.
+
+(* [observed c k m]: m is the value a LoadOrStore k obtained - visible in the frame of a keyed-mutex
+   call that is about to act on the mutex, or as the result of a completed plain LoadOrStore - or the
+   value a completed Load k returned. Any two observations for one key, made at any two moments of a
+   run by any threads, agree. *)
+Theorem C09_one_mutex_per_key : forall progs s1 s2 k m1 m2, io_progs progs ->
+  observed (run_schedule (init_config 1 progs) s1) k m1 ->
+  observed (run_schedule (init_config 1 progs) (s1 ++ s2)) k m2 -> m1 = m2.
+Proof. exact one_value_per_key. Qed.
+Print Assumptions C09_one_mutex_per_key.
+
+(* [holds_excl c t k] / [holds_shared c t k]: computed from the history c_hist (see [holders]).
+   [disc_from c0 sched]: whenever the schedule picks a thread that stands at the Unlock (RUnlock) step
+   of a call on key k, that thread holds k exclusively (shared). *)
+Theorem C09_mutual_exclusion : forall progs sched, io_progs progs -> disc_from (init_config 1 progs) sched ->
+  let c := run_schedule (init_config 1 progs) sched in
+  forall k t1 t2, holds_excl c t1 k -> (holds_excl c t2 k -> t1 = t2) /\ ~ holds_shared c t2 k.
+Proof. exact keyed_mutual_exclusion. Qed.
+Print Assumptions C09_mutual_exclusion.
+
+(* while k is held exclusively its mutex - the value every LoadOrStore k returns - is locked, so every
+   TryLockKey / TryRLockKey of k fails and every LockKey / RLockKey of k waits (by the theorems above) *)
+Theorem C09_holder_locks_mutex : forall progs sched, io_progs progs -> disc_from (init_config 1 progs) sched ->
+  let c := run_schedule (init_config 1 progs) sched in
+  forall k t m, holds_excl c t k -> key_value c k m -> c_um c !! m = Some ULocked.
+Proof. exact keyed_holder_locks_mutex. Qed.
+Print Assumptions C09_holder_locks_mutex.
+
+(* ================= Try*/Lock at the level of keys ================= *)
+(* A disciplined run never panics (no unlock of an unlocked mutex). *)
+Theorem C09_disciplined_no_panic : forall progs sched, io_progs progs -> disc_from (init_config 1 progs) sched ->
+  c_panicked (run_schedule (init_config 1 progs) sched) = false.
+Proof. exact disciplined_no_panic. Qed.
+Print Assumptions C09_disciplined_no_panic.
+
+(* TryLockKey(k): thread t stands at the TryLock step of a call on k. While k is held - in any mode, by
+   anybody - the step completes the call with false, acquires nothing and leaves every mutex alone. *)
+Theorem C09_trylock_fails_while_held : forall progs sched t ch c' f t2 b2,
+  io_progs progs -> disc_from (init_config 1 progs) sched ->
+  let c := run_schedule (init_config 1 progs) sched in
+  top_frame c t = Some f -> (f_pc f = KM_TryLock \/ f_pc f = KRW_TryLock) ->
+  (t2, key_of (f_call f), b2) ∈ holders c ->
+  step c t ch = Some c' ->
+  completed (c_hist c') = completed (c_hist c) ++ [(t, f_call f, RBool false)] /\ c_um c' = c_um c /\ holders c' = holders c.
+Proof. exact trylock_fails_while_held. Qed.
+Print Assumptions C09_trylock_fails_while_held.
+
+Theorem C09_tryrlock_fails_while_write_held : forall progs sched t ch c' f t2,
+  io_progs progs -> disc_from (init_config 1 progs) sched ->
+  let c := run_schedule (init_config 1 progs) sched in
+  top_frame c t = Some f -> f_pc f = KRW_TryRLock ->
+  holds_excl c t2 (key_of (f_call f)) ->
+  step c t ch = Some c' ->
+  completed (c_hist c') = completed (c_hist c) ++ [(t, f_call f, RBool false)] /\ c_um c' = c_um c /\ holders c' = holders c.
+Proof. exact tryrlock_fails_while_write_held. Qed.
+Print Assumptions C09_tryrlock_fails_while_write_held.
+
+(* [fresh_values progs]: calls on different keys carry different mutexes (in the code every call allocates
+   a new one). Then distinct keys have distinct mutexes, and "the key is free" decides: *)
+Theorem C09_trylock_succeeds_when_key_free : forall progs sched t ch c' f,
+  io_progs progs -> fresh_values progs -> disc_from (init_config 1 progs) sched ->
+  let c := run_schedule (init_config 1 progs) sched in
+  top_frame c t = Some f -> (f_pc f = KM_TryLock \/ f_pc f = KRW_TryLock) ->
+  (forall t2 b, (t2, key_of (f_call f), b) ∉ holders c) ->
+  step c t ch = Some c' ->
+  completed (c_hist c') = completed (c_hist c) ++ [(t, f_call f, RBool true)] /\ holds_excl c' t (key_of (f_call f)).
+Proof. exact trylock_succeeds_when_key_free. Qed.
+Print Assumptions C09_trylock_succeeds_when_key_free.
+
+Theorem C09_tryrlock_succeeds_when_key_not_write_held : forall progs sched t ch c' f,
+  io_progs progs -> fresh_values progs -> disc_from (init_config 1 progs) sched ->
+  let c := run_schedule (init_config 1 progs) sched in
+  top_frame c t = Some f -> f_pc f = KRW_TryRLock ->
+  (forall t2, ~ holds_excl c t2 (key_of (f_call f))) ->
+  step c t ch = Some c' ->
+  completed (c_hist c') = completed (c_hist c) ++ [(t, f_call f, RBool true)] /\ holds_shared c' t (key_of (f_call f)).
+Proof. exact tryrlock_succeeds_when_key_not_write_held. Qed.
+Print Assumptions C09_tryrlock_succeeds_when_key_not_write_held.
+
+(* LockKey(k) waits exactly while k is held: its mutex step is disabled while anybody holds k ... *)
+Theorem C09_lock_waits_while_held : forall progs sched t ch f t2 b2,
+  io_progs progs -> disc_from (init_config 1 progs) sched ->
+  let c := run_schedule (init_config 1 progs) sched in
+  top_frame c t = Some f -> (f_pc f = KM_Lock \/ f_pc f = KRW_Lock) ->
+  (t2, key_of (f_call f), b2) ∈ holders c -> step c t ch = None.
+Proof. exact lock_waits_while_held. Qed.
+Print Assumptions C09_lock_waits_while_held.
+
+(* ... and enabled - it then completes and holds k - as soon as nobody holds k, whatever OTHER keys are
+   held or awaited by whomever (cross-key independence at the level of keys). *)
+Theorem C09_lock_succeeds_when_key_free : forall progs sched t ch f,
+  io_progs progs -> fresh_values progs -> disc_from (init_config 1 progs) sched ->
+  let c := run_schedule (init_config 1 progs) sched in
+  top_frame c t = Some f -> (f_pc f = KM_Lock \/ f_pc f = KRW_Lock) ->
+  (forall t2 b, (t2, key_of (f_call f), b) ∉ holders c) ->
+  exists c', step c t ch = Some c' /\ completed (c_hist c') = completed (c_hist c) ++ [(t, f_call f, RUnit)] /\
+             holds_excl c' t (key_of (f_call f)).
+Proof. exact lock_succeeds_when_key_free. Qed.
+Print Assumptions C09_lock_succeeds_when_key_free.
+
+(* RLockKey(k): disabled while k is held exclusively; enabled - readers do not exclude each other - as
+   soon as nobody holds k exclusively, and then holds k shared. *)
+Theorem C09_rlock_waits_while_write_held : forall progs sched t ch f t2,
+  io_progs progs -> disc_from (init_config 1 progs) sched ->
+  let c := run_schedule (init_config 1 progs) sched in
+  top_frame c t = Some f -> f_pc f = KRW_RLock ->
+  holds_excl c t2 (key_of (f_call f)) -> step c t ch = None.
+Proof. exact rlock_waits_while_write_held. Qed.
+Print Assumptions C09_rlock_waits_while_write_held.
+
+Theorem C09_rlock_succeeds_when_key_not_write_held : forall progs sched t ch f,
+  io_progs progs -> fresh_values progs -> disc_from (init_config 1 progs) sched ->
+  let c := run_schedule (init_config 1 progs) sched in
+  top_frame c t = Some f -> f_pc f = KRW_RLock ->
+  (forall t2, ~ holds_excl c t2 (key_of (f_call f))) ->
+  exists c', step c t ch = Some c' /\ completed (c_hist c') = completed (c_hist c) ++ [(t, f_call f, RUnit)] /\
+             holds_shared c' t (key_of (f_call f)).
+Proof. exact rlock_succeeds_when_key_not_write_held. Qed.
+Print Assumptions C09_rlock_succeeds_when_key_not_write_held.
+
+(* Non-vacuity: two threads race LockKey(7); UnlockKey(7) on a never-seen key (alternating steps, so
+   both are inside LoadOrStore at the same time). The run is disciplined; after 10 rounds thread 0
+   holds key 7, thread 1's LoadOrStore returned thread 0's mutex 1001 and it is blocked on it; at the
+   end both have locked and unlocked, nobody holds anything, the mutex is free. *)
+Example C09_example_per_key :
+  disc_fromb (init_config 1 ex_progs) (ex_alt 30) = true /\
+  (let c := run_schedule (init_config 1 ex_progs) (ex_alt 10) in
+   holders c = [(0%nat, 7%Z, true)] /\ map thread_label (c_threads c) = [Some LOS_lock; Some KM_Lock] /\
+   option_map (fun f => (f_los f).1) (top_frame c 1) = Some 1001%Z /\ map_to_list (c_um c) = [(1001%Z, ULocked)] /\
+   step c 1 0 = None) /\
+  (let c := run_schedule (init_config 1 ex_progs) (ex_alt 30) in
+   holders c = [] /\ map thread_label (c_threads c) = [None; None] /\ map_to_list (c_um c) = [(1001%Z, UFree)] /\
+   length (completed (c_hist c)) = 4 /\ c_panicked c = false).
 Proof. vm_compute. repeat split. Qed.
